@@ -29,6 +29,9 @@ def ref_complement(A, B, strict):
                 break
         else:
             out.append(tuple(x))
+    for op in ('recordcomplement', 'recorddiff'):
+        out.append(dict(name='%s/2x2/cols=3/Id2+Id2+Id2/bs=None' % op, func='setop',
+                        params=dict(op=op, NA=2 if q else 3, NB=2, ncols=3, dom='Id2+Id2+Id2', bs=None), budget=180 if q else 1200))
     return out
 
 
@@ -59,13 +62,13 @@ def setop(sym, op, NA, NB, ncols, dom, bs=None):
     na, nb = nrows(sym, 'na', NA), nrows(sym, 'nb', NB)
     A = _table(sym, 'a', na, ncols, dom)
     B = _table(sym, 'b', nb, ncols, dom)
-    hdr = ['x', 'y'][:ncols]
+    hdr = ['x', 'y', 'z'][:ncols]
     ta = [hdr] + A
     tb = [list(hdr)] + B
     strict = sym.flag('strict') if op in ('complement', 'hashcomplement', 'diff', 'recordcomplement', 'recorddiff') else False
     if op.startswith('record'):
         # b's fields in another order; rows permuted accordingly
-        perm = list(reversed(range(ncols)))
+        perm = list(reversed(range(ncols))) if ncols < 3 else [1, 2, 0]      # (y, z, x): not its own inverse
         tb = [[hdr[p] for p in perm]] + [[r[p] for p in perm] for r in B]
     with pickle_stub(), private_tempdir() as td:
         kw = dict(buffersize=bs, tempdir=td)
